@@ -226,6 +226,14 @@ func (m *Manager) authenticateHTTP(req *Request, token string) (string, error) {
 	httpClient := &http.Client{
 		Timeout:   m.ReadTimeout,
 		Transport: tr,
+		// do not follow redirects that turn the POST into a GET without body (301, 302, 303),
+		// otherwise the reply to that GET would be taken as the reply to the authentication request.
+		CheckRedirect: func(req *http.Request, _ []*http.Request) error {
+			if req.Method != http.MethodPost {
+				return http.ErrUseLastResponse
+			}
+			return nil
+		},
 	}
 
 	res, err := httpClient.Post(m.HTTPAddress, "application/json", bytes.NewReader(enc))
